@@ -20,8 +20,8 @@ type (
 )
 
 var (
-	vkAll    = []int{ik.ClsFinite, ik.ClsExtreme, ik.ClsSpecial}
-	vkNoSpec = []int{ik.ClsFinite, ik.ClsExtreme}
+	vkAll = []int{ik.ClsFinite, ik.ClsExtreme, ik.ClsSpecial}
+	vkRed = []int{ik.ClsFinite, ik.ClsExtreme, ik.ClsSpecial, ik.ClsInf}
 )
 
 func vkRet(v complex64) complex128 { return complex128(v) }
@@ -44,20 +44,20 @@ var vkOps = []*vkOp{
 		Call: func(a *vkArgs) {
 			AxpyIncTo(a.Dst, a.IncD, a.ID, a.Alpha, a.X, a.Y, a.N, a.IncX, a.IncY, a.IX, a.IY)
 		}},
-	{Name: "DotuUnitary", Family: "Dot", Classes: vkNoSpec, Red: ik.RedDot,
+	{Name: "DotuUnitary", Family: "Dot", Classes: vkRed, Red: ik.RedDot,
 		Shape: ik.Shape{HasX: true, HasY: true},
 		Call:  func(a *vkArgs) { a.Ret = vkRet(DotuUnitary(a.X, a.Y)) }},
-	{Name: "DotcUnitary", Family: "Dot", Classes: vkNoSpec, Red: ik.RedDotc,
+	{Name: "DotcUnitary", Family: "Dot", Classes: vkRed, Red: ik.RedDotc,
 		Shape: ik.Shape{HasX: true, HasY: true},
 		Call:  func(a *vkArgs) { a.Ret = vkRet(DotcUnitary(a.X, a.Y)) }},
-	{Name: "DotuInc", Family: "Dot", Classes: vkNoSpec, Red: ik.RedDot,
+	{Name: "DotuInc", Family: "Dot", Classes: vkRed, Red: ik.RedDot,
 		Shape: ik.Shape{HasX: true, HasY: true, Inc: true, Idx: true, NegInc: true},
 		Call:  func(a *vkArgs) { a.Ret = vkRet(DotuInc(a.X, a.Y, a.N, a.IncX, a.IncY, a.IX, a.IY)) }},
-	{Name: "DotcInc", Family: "Dot", Classes: vkNoSpec, Red: ik.RedDotc,
+	{Name: "DotcInc", Family: "Dot", Classes: vkRed, Red: ik.RedDotc,
 		Shape: ik.Shape{HasX: true, HasY: true, Inc: true, Idx: true, NegInc: true},
 		Call:  func(a *vkArgs) { a.Ret = vkRet(DotcInc(a.X, a.Y, a.N, a.IncX, a.IncY, a.IX, a.IY)) }},
 	// DotUnitary is sum conj(x[i]) * y[i], the same value as DotcUnitary.
-	{Name: "DotUnitary", Family: "Dot", Classes: vkNoSpec, Red: ik.RedDotc,
+	{Name: "DotUnitary", Family: "Dot", Classes: vkRed, Red: ik.RedDotc,
 		Shape: ik.Shape{HasX: true, HasY: true},
 		Call:  func(a *vkArgs) { a.Ret = vkRet(DotUnitary(a.X, a.Y)) }},
 	{Name: "ScalUnitary", Family: "Scal", Classes: vkAll, Ref: ik.RefScalUnitary[complex64],
@@ -96,7 +96,7 @@ var vkOps = []*vkOp{
 	{Name: "DivTo", Family: "Elem", Classes: vkAll, Ref: ik.RefDivTo[complex64],
 		Shape: ik.Shape{HasX: true, HasY: true, HasDst: true, RetDst: true, AliasX: true, AliasY: true},
 		Call:  func(a *vkArgs) { a.RetS = DivTo(a.Dst, a.X, a.Y) }},
-	{Name: "Sum", Family: "Norm", Classes: vkNoSpec, Red: ik.RedSum,
+	{Name: "Sum", Family: "Norm", Classes: vkRed, Red: ik.RedSum,
 		Shape: ik.Shape{HasX: true},
 		Call:  func(a *vkArgs) { a.Ret = vkRet(Sum(a.X)) }},
 	{Name: "L2NormUnitary", Family: "Norm", Classes: vkAll, Red: ik.RedL2,
